@@ -135,7 +135,8 @@ class Pile(Widget, WidgetContainerMixin, WidgetContainerListContentsMixin):
 
             if not flag & box_flow_fixed:
                 warnings.warn(
-                    f"Sizing combination of widget {idx} not supported: {size_kind.name} {'|'.join(w_sizing).upper()}",
+                    f"Sizing combination of widget {idx} not supported: "
+                    f"{WHSettings(size_kind).name} {'|'.join(w_sizing).upper()}",
                     PileWarning,
                     stacklevel=3,
                 )
